@@ -124,7 +124,7 @@ def gen_regplan(rng, n, family=None, cfg=None):
         nd = ir.add("call", args=args, kwargs=kwargs, scope=_scope(rng), fname=f"fn{rng.randrange(4)}")
         for d in deps:
             ir.deps.append((d, nd.id))
-        if preds and rng.random() < 0.12:
+        if preds and rng.random() < cfg.get("p_redundant", 0.12):
             # an explicit dependency on something that is already upstream through other nodes (possibly through stored values that are up to
             # date and therefore cut the path): it still has to be honoured when that upstream call executes in the run
             up = [u for u in ir.ancestors(preds) if u not in preds and ir.nodes[u].kind == "call" and rp.role.get(u) in ("plain", "stored")]
@@ -161,7 +161,7 @@ def gen_regplan(rng, n, family=None, cfg=None):
                 chain.append(s.id)
                 prev = s.id
             rp.dsrc_of[nd.id] = chain
-            if rng.random() < 0.25:
+            if rng.random() < max(0.25, cfg.get("p_redundant", 0.0)):
                 # the source also depends EXPLICITLY on a call further upstream of its writer (already an ancestor through other nodes)
                 up = [u for u in ir.ancestors([nd.id]) if u != nd.id and ir.nodes[u].kind == "call" and rp.role.get(u) in ("plain", "stored")]
                 if up:
